@@ -92,6 +92,18 @@ def case_embed(case):
     r.close("lat-lon model: angles forced to 0", m2.angles, np.zeros_like(m2.angles), rtol=0, atol=0, **extra)
     if temporal:
         r.close("lat-lon + time: list of length scales sets the time anisotropy", m2.anis[2], 4.0 / 2.0, rtol=1e-14, **extra)
+    if temporal:
+        # history on the used model: scalar assignments keep the time anisotropy, a length-scale list sets it
+        L = float(m.len_scale)
+        for step, (attr, val) in enumerate([("len_scale", 0.9 * L), ("var", 2.0), ("len_scale", 1.3 * L), ("nugget", 0.1)]):
+            setattr(m, attr, val)
+            r.eq("lat-lon + time after a scalar assignment: three ratios", len(m.anis), 3, step=step, **extra)
+            r.close("lat-lon + time after a scalar assignment: time axis still scaled by the time anisotropy", m.isometrize(pos)[3], t / ta, rtol=1e-13, atol=1e-15, step=step, **extra)
+            r.close("lat-lon + time after a scalar assignment: sphere part unchanged", m.isometrize(pos)[:3], xyz, rtol=1e-12, atol=1e-12 * gsc, step=step, **extra)
+        m.len_scale = [L, L, L, L * 0.4]
+        r.close("lat-lon + time: length-scale list assigned in place sets the time anisotropy", m.isometrize(pos)[3], t / 0.4, rtol=1e-12, atol=1e-15, **extra)
+        m.len_scale = 2.0 * L
+        r.close("lat-lon + time: scalar assignment after the list keeps the new time anisotropy", m.isometrize(pos)[3], t / 0.4, rtol=1e-12, atol=1e-15, **extra)
     return r.done(outcome=[case["scale"], temporal, ta])
 
 
